@@ -276,14 +276,20 @@ func (r *Reader) parseWorksheet(data []byte, name string, index int) (*Sheet, er
 	maxRow := 0
 	maxCol := 0
 
-	// First pass: find dimensions
+	// First pass: find dimensions. Row and column numbers come from the file and size the grid:
+	// anything beyond what a worksheet can hold (ECMA-376: 1048576 rows, 16384 columns) is not a
+	// position and is ignored, like the other unusable references below.
+	const maxSheetRows, maxSheetCols = 1048576, 16384
 	for _, row := range ws.SheetData.Rows {
+		if row.R > maxSheetRows {
+			continue
+		}
 		if row.R > maxRow {
 			maxRow = row.R
 		}
 		for _, cell := range row.Cells {
 			col, _, err := ParseCellRef(cell.R)
-			if err != nil {
+			if err != nil || col >= maxSheetCols {
 				continue
 			}
 			if col > maxCol {
